@@ -122,12 +122,20 @@ func enc(v interface{ Marshal(io.Writer) error }) ([]byte, error) {
 
 func genStr(r *core.Run, label string) string {
 	n := r.Intn(12, label+"-len")
+	if r.Chance(6, label+"-boundary?") {
+		// around the one-byte size limit: 254 characters + terminator is the longest legal string
+		n = []int{252, 253, 254, 255, 256, 300}[r.Intn(6, label+"-boundary")]
+	}
 	b := make([]byte, n)
 	for i := range b {
 		b[i] = byte('a' + r.Intn(26, label))
 	}
+	strLens = append(strLens, n)
 	return string(b)
 }
+
+// strLens collects the lengths of the strings generated for the current run's value.
+var strLens []int
 
 func genBytes(r *core.Run, max int, label string) []byte {
 	n := r.Intn(max+1, label+"-len")
@@ -191,6 +199,8 @@ type streamable interface {
 }
 
 func runC18(r *core.Run) {
+	strLens = nil
+	defer func() { strLens = nil }()
 	// the value under test and a factory for empty values of its type
 	var v streamable
 	var fresh func() streamable
@@ -214,10 +224,28 @@ func runC18(r *core.Run) {
 	default:
 		name, v, fresh = "EfiGUID", &eventlog.EfiGUID{UUID: uuid.UUID{9, 8, 7, byte(r.Intn(256, "g"))}}, func() streamable { return &eventlog.EfiGUID{} }
 	}
+	outOfRange, longest := false, 0
+	for _, n := range strLens {
+		if n > 254 {
+			outOfRange = true
+		}
+		if n > longest {
+			longest = n
+		}
+	}
 	full, err := enc(v)
 	if err != nil {
+		// an out-of-range field (a string that does not fit its one-byte size) is refused: fine
+		if outOfRange {
+			r.Probe("out-of-range-refused")
+			r.Eval(name+"|out-of-range|refused", true)
+			return
+		}
 		r.HarnessErr = fmt.Sprintf("%s: generated value does not encode: %v", name, err)
 		return
+	}
+	if outOfRange {
+		r.Fail("truncation-accepted", name+"/out-of-range", "%s: a value with an out-of-range field (a %d-character string for a one-byte size) was encoded instead of refused", name, longest)
 	}
 	r.Eventf("codec %s, encoding %d bytes", name, len(full))
 	decode := func(rd io.Reader) (streamable, error) {
@@ -246,6 +274,20 @@ func runC18(r *core.Run) {
 			return "tail"
 		}
 		return "middle"
+	}
+	// size-exactness: a bounded decoder consumes exactly its own encoding and leaves what follows
+	if name != "CryptoAgileLog" {
+		trailer := []byte("NEXT-RECORD-BYTES")
+		for _, mode := range []int{0, 2} {
+			sr := &SimReader{data: append(append([]byte(nil), full...), trailer...), end: len(full) + len(trailer), errAt: -1, mode: mode, r: r}
+			if _, err := decode(sr); err != nil {
+				r.Fail("chunking-changes-result", name+"/with-trailer", "%s: decoding fails when more data follows the encoding: %v", name, err)
+			}
+			r.Eval(fmt.Sprintf("%s|trailer|mode%d", name, mode), true)
+			if sr.pos != len(full) {
+				r.Fail("truncation-accepted", name+"/over-read", "%s: the decoder consumed %d bytes of the stream for an encoding of %d bytes: the next record's bytes are gone", name, sr.pos, len(full))
+			}
+		}
 	}
 	// (a) chunking invariance
 	for _, mode := range []int{1, 2, 3} {
